@@ -991,7 +991,10 @@ class WorkflowConductor(object):
             # fail the workflow, and continue without retrying the task.
             try:
                 retry_task = (
-                    self.get_workflow_status() in statuses.ACTIVE_STATUSES
+                    # A late or repeated report that leaves the completed status of the task
+                    # unchanged does not make another attempt.
+                    new_task_status != old_task_status
+                    and self.get_workflow_status() in statuses.ACTIVE_STATUSES
                     # A task can only be retried from a status that can transition to retrying.
                     and machines.TaskStateMachine.is_transition_valid(
                         new_task_status, statuses.RETRYING
